@@ -97,6 +97,7 @@ def delay_step(interp, c, case, facets=None, rules=False):
     dt = c.real("dt", lo=0, lo_strict=True)
     c.assume(t0 <= grid[0])
     sim = AbsSim(c, S, R, x0, U, D, t0, dt)
+    x0_orig, p_orig = list(x0), list(sim.params)
     if rules:
         sim.havoc_rules()
     q, q0, dtq = _mk_queue(interp, c, R, C, start)
@@ -239,6 +240,8 @@ def delay_step(interp, c, case, facets=None, rules=False):
     if ci_new < T:
         inv.append(L["current_time"] <= grid[ci_new])
     inv += [q.queue[r, col] >= 0 for r in range(R) for col in range(C)]
+    report(c, all(a is b for a, b in zip(sim.x0, x0_orig)) and all(a is b for a, b in zip(sim.params, p_orig)),
+           "[model-untouched] delay loop: the interface's initial-state and parameter arrays are never written", "delay loop writes the model", K)
     report(c, s_and(*inv), "[invariant] delay loop: clock never runs backwards, stays before the next grid time and the "
                            "next queue slot; pending counts stay non-negative", "delay invariant", K)
     report(c, (L["rule_step"] == 1) == (ci_new > ci),
@@ -279,6 +282,7 @@ def volume_step(interp, c, case, vol_factory=None, facets=None, rules=False, ali
     dt = c.real("dt", lo=0, lo_strict=True)
     c.assume(t0 <= grid[0])
     sim = AbsSim(c, S, R, x0, U, D, t0, dt)
+    x0_orig, p_orig = list(x0), list(sim.params)
     if rules:
         sim.havoc_rules()
     V0 = c.real("V0", lo=0, lo_strict=True)
@@ -437,6 +441,8 @@ def volume_step(interp, c, case, vol_factory=None, facets=None, rules=False, ali
     inv = [ci_new <= T, L["current_time"] >= t, L["current_volume"] > 0, L["current_time"] <= L["next_queue_time"]]
     if ci_new < T:
         inv.append(L["current_time"] <= grid[ci_new])
+    report(c, all(a is b for a, b in zip(sim.x0, x0_orig)) and all(a is b for a, b in zip(sim.params, p_orig)),
+           "[model-untouched] volume loop: the interface's initial-state and parameter arrays are never written", "volume loop writes the model", K)
     report(c, s_and(*inv), "[invariant] volume loop: clock never runs backwards and stays before the next grid time and the "
                            "next volume step; volume stays positive", "volume invariant", K)
     if out == "break" or ci_new == T:
@@ -471,6 +477,7 @@ def delay_volume_step(interp, c, case, facets=None):
     dt = c.real("dt", lo=0, lo_strict=True)
     c.assume(t0 <= grid[0])
     sim = AbsSim(c, S, R, x0, U, D, t0, dt)
+    x0_orig, p_orig = list(x0), list(sim.params)
     V0 = c.real("V0", lo=0, lo_strict=True)
     vol = AbsVolume(c, V0)
     q, q0, dtq = _mk_queue(interp, c, R, C, start)
@@ -603,5 +610,8 @@ def delay_volume_step(interp, c, case, facets=None):
     report(c, s_and(*[L["c_current_state"][i] + tot_post[i] == x_eff[i] + tot_pre[i] + ghost_delta[i] for i in range(S)]),
            "[conservation] delay+volume loop: state + queued deliveries changes exactly by the fired reaction's total "
            "stoichiometry", "delay-volume conservation", K)
+    report(c, all(a is b for a, b in zip(sim.x0, x0_orig)) and all(a is b for a, b in zip(sim.params, p_orig)),
+           "[model-untouched] delay+volume loop: the interface's initial-state and parameter arrays are never written",
+           "delay+volume loop writes the model", K)
     report(c, s_and(L["current_time"] >= t, L["current_volume"] > 0),
            "[invariant] delay+volume loop: clock never runs backwards, volume stays positive", "delay-volume invariant", K)
